@@ -55,7 +55,22 @@ def handler_family(rng, i):
             "features": ["handler-list", "timeout" if use_timeout else "catch"]}
 
 
+def acting_act_scenario():
+    """the recorded finding `orphan:acting-act` in its smallest form: an action act fails its own step, the step's empty catch takes the error"""
+    w = {"id": "m1", "steps": [{"id": "s1", "catches": [{"on": "e9", "steps": []}],
+                                "branches": [{"id": "b1", "if": "true", "steps": [{"id": "s11", "acts": [
+                                    {"id": "a1", "uses": "acts.core.action", "params": {"action": "error", "options": {"ecode": "e9", "message": "from inside"}}},
+                                    {"id": "a2", "uses": gen.IRQ, "key": "ka2"}]}]}]},
+                               {"id": "s2", "acts": [{"id": "a3", "uses": gen.IRQ, "key": "ka3"}]}]}
+    ops = [["deploy", 0], ["start", "m1", {"pid": "p1", "x": 0, "y": 0}], ["runall"]]
+    for _ in range(3):
+        ops += [["act", "next", "p1", {"open": 0}, {}], ["runall"]]
+    return {"id": "c03-acting-act", "config": {"keep": True, "dump_each": True}, "models": [w], "ops": ops, "exprs": {"true": ["lit", True]}, "features": ["action-act", "catch", "branches"]}
+
+
 def gen_scenario(seed, i):
+    if i == 0:
+        return acting_act_scenario()
     rng = Rng(seed * 179424673 + i)
     if i % 8 == 7:
         return handler_family(rng, i)
@@ -70,7 +85,9 @@ def gen_scenario(seed, i):
                 if acts and rng.chance(1, 2):
                     k = rng.below(len(acts) + 1)
                     # (skip / submit / next from inside close the step over its open acts: the orphan class already recorded for client actions)
-                    ev = rng.pick(["abort", "error"])
+                    # (an error from inside that a catch takes leaves the acting act running — recorded finding, shown by the fixed scenario
+                    #  `acting_act_scenario`; the random family raises errors from inside only where nothing catches them)
+                    ev = rng.pick(["abort", "error"]) if "catch" not in g.features else "abort"
                     acts.insert(k, {"id": g.fresh("a"), "uses": "acts.core.action", "params": {"action": ev, "options": {"ecode": "e1", "message": "from inside"}}})
                     g.features.add("action-act")
                 for b in st.get("branches", []):
